@@ -166,6 +166,7 @@ func templateScenario(r *sim.Rand, g *world.Gen) []sim.Op {
 		ops = append(ops, sim.Op{K: "img", I: []int{0, 6, 6, 4242, 0, 0, 0, 0}, S: []sim.Str{"base.png", "a", "t"}, F: []float64{0, 0, 0, 0}})
 	}
 	n := r.Range(2, 3)
+	lateBaseEdits := r.Chance(0.35)
 	// some scenarios are a mail merge: one data object with one logo, reused for every render, only the variables set again
 	shared, picFmt := btoiP(r.Chance(0.35)), r.Intn(3)
 	for d := 1; d <= n; d++ {
@@ -175,6 +176,17 @@ func templateScenario(r *sim.Rand, g *world.Gen) []sim.Op {
 		}
 		data := &world.TData{Vars: map[string]any{"name": fmt.Sprintf("N%d", d), "city": "C", "title": "T"}, Images: map[string][]int{"pic": pic}}
 		ops = append(ops, sim.Op{K: "tpl.render", D: d, I: []int{0, 1, 0, shared}, S: []sim.Str{sim.Str(data.JSON())}})
+		if d < n && lateBaseEdits {
+			// the template document goes on being edited after it was loaded (no reload): whatever a later render takes from
+			// it - body, relationships, parts - must still fit together
+			fam := g.Fam
+			g.Fam = world.FBody | world.FImage | world.FHF | world.FList | world.FNote
+			ops = append(ops, g.DocOps(0, r.Range(1, 4))...)
+			g.Fam = fam
+		}
+	}
+	if lateBaseEdits && r.Bool() {
+		ops = append(ops, sim.Op{K: "save", D: 0, I: []int{r.Intn(2)}})
 	}
 	var lists [][]sim.Op
 	for d := 1; d <= n; d++ {
